@@ -131,7 +131,10 @@ def gc_pass(sess, T):
             gc = w.ns.db.QueryGarbageCollector(w.storage)
         else:
             gc = w.ns.kv.KVGarbageCollector(w.storage)
-        w.call(gc.run_once())
+        try:
+            w.call(gc.run_once())
+        except Exception:
+            pass  # the periodic driver swallows exceptions: a pass that dies simply collects nothing (judged by the oracle below)
         w.run()
     finally:
         CLOCK.now = old
